@@ -39,6 +39,8 @@ def model_case(scen, obs=None):
         "maxCores": None if ex.get("block_allocation") else ex.get("max_cores"),
         "maxWorkers": None if ex.get("block_allocation") else ex.get("max_workers"),
         "execCores": (ex.get("resource_dict") or {}).get("cores", 1),
+        # the local back end does not hand threads_per_core on to the workers (and does not account it)
+        "execThreads": 1 if ex.get("backend", "local") == "local" else (ex.get("resource_dict") or {}).get("threads_per_core", 1),
         "calls": calls,
     }
     recs = (obs or {}).get("cmds", [])
